@@ -1,11 +1,18 @@
 // C15 stress harness (built with ThreadSanitizer and, separately, with ASan+UBSan): free-running
-// reader, writer and clearing threads on one real vita::cache.  Keys 1..4 share a table slot, keys
-// 5..6 live in slots of their own; key k always carries values of LEN[k] components (1 = inline
-// storage of small_vector<double,1>, more = heap), every component encodes (k, id) where id is the
-// serial number of the insert.  Oracle: a lookup of k returns nothing or LEN[k] equal components that
-// name k and an insert already started under k.  Sanitizer reports end the process (exit codes 97/99).
+// threads on one real vita::cache, or on the cache inside one real vita::evaluator_proxy.
 //
-// usage: c15_stress <seed> <milliseconds> <readers> <writers> <clearers>
+// Roles: readers (find), writers (insert), clearers (clear() / clear(key)), savers (save into a string,
+// every saved entry is judged), loaders (load one of a few prepared images - some carry the seal
+// UINT_MAX, so that the next clear() wraps and wipes the table; some are truncated, so that load
+// fails half-way), proxies (evaluator_proxy::operator(): find, on a miss evaluate, insert).
+// Keys 1..4 share a table slot, keys 5..6 live in slots of their own.  Key k carries values of LEN[k]
+// components (1 = inline storage of small_vector<double,1>, more = heap) or, with `varlen`, of a length
+// that changes from store to store (1..7: the slot's heap buffer is reallocated under the readers);
+// every component encodes (k, id, length).  Oracle: a lookup of k returns nothing or one value whose
+// components are all equal, name k, an id already issued for k and the value's own length.
+// Sanitizer reports end the process (exit codes 97/99).
+//
+// usage: c15_stress <seed> <milliseconds> <readers> <writers> <clearers> [<savers> <loaders> <proxies> <varlen 0|1>]
 #include "common/verif.h"
 
 #include "kernel/vita.h"
@@ -19,25 +26,31 @@ namespace
 using vita::fitness_t;
 using vita::hash_t;
 
-const unsigned BITS = 3, NKEYS = 6;
+const unsigned BITS = 7, NKEYS = 6;
 const unsigned LEN[NKEYS + 1] = {0, 1, 3, 4, 6, 1, 5};
+bool VARLEN = false;
 
 hash_t key_of(unsigned k)
 {
   // 1..4: same low bits (one slot); 5, 6: other slots
   return k <= 4 ? hash_t(0x3ull + (std::uint64_t(k) << BITS), 500 + k) : hash_t(std::uint64_t(k), 500 + k);
 }
+unsigned key_from(const hash_t &h) { return unsigned(h.data[1] - 500); }
+
+unsigned len_of(unsigned k, unsigned long id) { return VARLEN ? 1 + unsigned((id * 2654435761ul >> 7) % 7) : LEN[k]; }
 
 fitness_t value_of(unsigned k, unsigned long id)
 {
+  const unsigned len(len_of(k, id));
   fitness_t::values_t v;
-  for (unsigned i(0); i < LEN[k]; ++i) v.push_back(double(k) * 1e9 + double(id));
+  for (unsigned i(0); i < len; ++i) v.push_back(double(k) * 1e10 + double(id) * 10.0 + double(len));
   return fitness_t(v);
 }
 
 std::atomic<unsigned long> next_id[NKEYS + 1];
 std::atomic<bool> stop{false};
-std::atomic<unsigned long> n_find{0}, n_hit{0}, n_ins{0}, n_clear{0}, n_clearkey{0}, n_bad{0};
+std::atomic<unsigned long> n_find{0}, n_hit{0}, n_ins{0}, n_clear{0}, n_clearkey{0}, n_bad{0}, n_save{0}, n_saved{0},
+                           n_load{0}, n_loadfail{0}, n_proxy{0}, n_eval{0};
 std::string first_bad;
 std::mutex bad_m;
 
@@ -47,6 +60,48 @@ void bad(const std::string &s)
   std::lock_guard lk(bad_m);
   if (first_bad.empty()) first_bad = s;
 }
+
+// judge a value returned for key k (what: lookup / proxy / saved-entry)
+void judge(const char *what, unsigned k, const fitness_t &f, bool may_be_empty)
+{
+  const unsigned long issued(k <= NKEYS ? next_id[k].load() : 0);
+  const std::string w(what);
+  if (k < 1 || k > NKEYS) { bad("unknown-key-in-" + w); return; }
+  if (!f.size()) { if (!may_be_empty) bad("empty-value-in-" + w + " key=" + std::to_string(k)); return; }
+  const double c(f[0]);
+  bool same(true);
+  for (std::size_t i(1); i < f.size(); ++i) same = same && f[i] == c;
+  if (!same) { bad("torn-value " + w + " key=" + std::to_string(k)); return; }
+  const double kk(std::floor(c / 1e10)), rest(c - kk * 1e10), id(std::floor(rest / 10.0)), len(rest - id * 10.0);
+  if (kk != double(k)) bad("value-of-another-key " + w + " looked-up=" + std::to_string(k) + " got=" + std::to_string(kk));
+  else if (!(id >= 0 && id < double(issued))) bad("value-never-stored " + w + " key=" + std::to_string(k));
+  else if (len != double(f.size())) bad("wrong-length " + w + " key=" + std::to_string(k) + " size=" + std::to_string(f.size()));
+}
+
+struct prog_t
+{
+  unsigned k = 0;
+  hash_t signature() const { return key_of(k); }
+};
+
+class eval_t : public vita::evaluator<prog_t>
+{
+public:
+  fitness_t operator()(const prog_t &p) override
+  {
+    ++n_eval;
+    return value_of(p.k, next_id[p.k].fetch_add(1));
+  }
+};
+
+struct shared_t
+{
+  std::unique_ptr<vita::cache> cache;
+  std::unique_ptr<vita::evaluator_proxy<prog_t, eval_t>> proxy;
+  void clear() { if (proxy) proxy->clear(); else cache->clear(); }
+  bool load(std::istream &in) { return proxy ? proxy->load(in) : cache->load(in); }
+  bool save(std::ostream &out) { return proxy ? proxy->save(out) : cache->save(out); }
+};
 }  // namespace
 
 int main(int argc, char **argv)
@@ -54,52 +109,129 @@ int main(int argc, char **argv)
   vita::log::reporting_level = vita::log::lOFF;
   const std::uint64_t seed(argc > 1 ? std::stoull(argv[1]) : 1);
   const unsigned msec(argc > 2 ? std::stoul(argv[2]) : 1000);
-  const unsigned nr(argc > 3 ? std::stoul(argv[3]) : 3), nw(argc > 4 ? std::stoul(argv[4]) : 2),
-                 nc(argc > 5 ? std::stoul(argv[5]) : 1);
-  vita::cache c(BITS);
+  auto arg = [&](int i, unsigned d) { return argc > i ? unsigned(std::stoul(argv[i])) : d; };
+  const unsigned nr(arg(3, 3)), nw(arg(4, 2)), nc(arg(5, 1)), ns(arg(6, 0)), nl(arg(7, 0)), np(arg(8, 0));
+  VARLEN = arg(9, 0) != 0;
   for (auto &a : next_id) a = 0;
 
-  std::vector<std::thread> ts;
-  for (unsigned r(0); r < nr; ++r)
-    ts.emplace_back([&c, seed, r] {
-      verif::splitmix rng(seed * 1000 + r);
-      while (!stop.load(std::memory_order_relaxed))
+  shared_t obj;
+  if (np) obj.proxy = std::make_unique<vita::evaluator_proxy<prog_t, eval_t>>(eval_t(), BITS);
+  else obj.cache = std::make_unique<vita::cache>(BITS);
+
+  // images for the loaders (built single-threaded with the real save): full table with seal 1, 2 and
+  // UINT_MAX, and one that announces more entries than it holds (load fails after writing them)
+  std::vector<std::string> images;
+  if (nl)
+  {
+    for (unsigned v(0); v < 4; ++v)
+    {
+      vita::cache tmp(BITS);
+      for (unsigned k(1); k <= NKEYS; ++k)
+        if (v != 3 || k % 2) tmp.insert(key_of(k), value_of(k, next_id[k].fetch_add(1)));
+      std::ostringstream ss;
+      tmp.save(ss);
+      std::string s(ss.str());
+      const std::size_t p(s.find('\n'));
+      const char *seals[] = {"1 ", "2 ", "4294967295 ", "1 "};
+      s = seals[v] + s.substr(p);
+      if (v == 3)
       {
-        const unsigned k(1 + unsigned(rng.below(NKEYS)));
-        const fitness_t f(c.find(key_of(k)));     // exactly what evaluator_proxy::operator() does
-        const unsigned long issued(next_id[k].load());
-        ++n_find;
-        if (!f.size()) continue;
-        ++n_hit;
-        if (f.size() != LEN[k]) { bad("wrong-length key=" + std::to_string(k) + " size=" + std::to_string(f.size())); continue; }
-        const double w(f[0]);
-        bool same(true);
-        for (std::size_t i(1); i < f.size(); ++i) same = same && f[i] == w;
-        if (!same) { bad("torn-value key=" + std::to_string(k)); continue; }
-        const double kk(std::floor(w / 1e9)), id(w - kk * 1e9);
-        if (kk != double(k)) bad("value-of-another-key looked-up=" + std::to_string(k) + " got=" + std::to_string(kk));
-        else if (!(id >= 0 && id < double(issued))) bad("value-never-stored key=" + std::to_string(k));
+        // announces one entry more than it holds (whole entries: a stream cut inside an entry is C12's matter)
+        const std::size_t q(s.find('\n', s.find('\n') + 1));
+        const unsigned long n(std::stoul(s.substr(s.find('\n') + 1, q)));
+        s = s.substr(0, s.find('\n') + 1) + std::to_string(n + 1) + s.substr(q);
       }
-    });
-  for (unsigned w(0); w < nw; ++w)
-    ts.emplace_back([&c, seed, w] {
-      verif::splitmix rng(seed * 2000 + w);
+      images.push_back(s);
+    }
+  }
+
+  std::vector<std::thread> ts;
+  if (!np)
+  {
+    for (unsigned r(0); r < nr; ++r)
+      ts.emplace_back([&obj, seed, r] {
+        verif::splitmix rng(seed * 1000 + r);
+        while (!stop.load(std::memory_order_relaxed))
+        {
+          const unsigned k(1 + unsigned(rng.below(NKEYS)));
+          const fitness_t f(obj.cache->find(key_of(k)));     // exactly what evaluator_proxy::operator() does
+          ++n_find;
+          if (f.size()) ++n_hit;
+          judge("lookup", k, f, true);
+        }
+      });
+    for (unsigned w(0); w < nw; ++w)
+      ts.emplace_back([&obj, seed, w] {
+        verif::splitmix rng(seed * 2000 + w);
+        while (!stop.load(std::memory_order_relaxed))
+        {
+          const unsigned k(1 + unsigned(rng.below(NKEYS)));
+          const unsigned long id(next_id[k].fetch_add(1));
+          obj.cache->insert(key_of(k), value_of(k, id));
+          ++n_ins;
+        }
+      });
+  }
+  for (unsigned p(0); p < np; ++p)
+    ts.emplace_back([&obj, seed, p] {
+      verif::splitmix rng(seed * 6000 + p);
       while (!stop.load(std::memory_order_relaxed))
       {
-        const unsigned k(1 + unsigned(rng.below(NKEYS)));
-        const unsigned long id(next_id[k].fetch_add(1));
-        c.insert(key_of(k), value_of(k, id));
-        ++n_ins;
+        prog_t prg; prg.k = 1 + unsigned(rng.below(NKEYS));
+        const fitness_t f((*obj.proxy)(prg));
+        ++n_proxy;
+        judge("proxy", prg.k, f, false);
       }
     });
   for (unsigned x(0); x < nc; ++x)
-    ts.emplace_back([&c, seed, x] {
+    ts.emplace_back([&obj, seed, x, np] {
       verif::splitmix rng(seed * 3000 + x);
       while (!stop.load(std::memory_order_relaxed))
       {
-        if (rng.chance(0.3)) { c.clear(); ++n_clear; }
-        else { c.clear(key_of(1 + unsigned(rng.below(NKEYS)))); ++n_clearkey; }
+        if (np || rng.chance(0.3)) { obj.clear(); ++n_clear; }
+        else { obj.cache->clear(key_of(1 + unsigned(rng.below(NKEYS)))); ++n_clearkey; }
         std::this_thread::sleep_for(std::chrono::microseconds(rng.below(200)));
+      }
+    });
+  for (unsigned x(0); x < ns; ++x)
+    ts.emplace_back([&obj, seed, x] {
+      verif::splitmix rng(seed * 4000 + x);
+      while (!stop.load(std::memory_order_relaxed))
+      {
+        std::ostringstream ss;
+        obj.save(ss);
+        ++n_save;
+        std::istringstream in(ss.str());
+        unsigned long long seal(0), num(0), got(0);
+        if (!(in >> seal >> num)) { bad("save-header"); continue; }
+        for (;;)
+        {
+          hash_t h;
+          if (!h.load(in)) break;
+          fitness_t f;
+          if (!f.load(in)) { bad("save-entry-truncated"); break; }
+          ++got; ++n_saved;
+          const unsigned k(key_from(h));
+          if (k < 1 || k > NKEYS || !(h == key_of(k))) { bad("save-entry-unknown-key"); continue; }
+          judge("saved-entry", k, f, false);
+        }
+        if (got != num) bad("save-count-differs announced=" + std::to_string(num) + " written=" + std::to_string(got));
+        std::this_thread::sleep_for(std::chrono::microseconds(rng.below(300)));
+      }
+    });
+  for (unsigned x(0); x < nl; ++x)
+    ts.emplace_back([&obj, &images, seed, x] {
+      verif::splitmix rng(seed * 5000 + x);
+      while (!stop.load(std::memory_order_relaxed))
+      {
+        const std::size_t i(rng.below(images.size()));
+        std::istringstream in(images[i]);
+        const bool ok(obj.load(in));
+        ++n_load;
+        if (!ok) ++n_loadfail;
+        if (ok != (i != 3)) bad("load-result image=" + std::to_string(i));
+        if (i == 2) { obj.clear(); ++n_clear; }            // the seal wraps: the table is wiped
+        std::this_thread::sleep_for(std::chrono::microseconds(rng.below(300)));
       }
     });
 
@@ -107,6 +239,8 @@ int main(int argc, char **argv)
   stop = true;
   for (auto &t : ts) t.join();
   std::cout << "stress finds=" << n_find << " hits=" << n_hit << " inserts=" << n_ins << " clears=" << n_clear
-            << " clearkeys=" << n_clearkey << " bad=" << n_bad << (first_bad.empty() ? "" : " first=" + first_bad) << "\n";
+            << " clearkeys=" << n_clearkey << " saves=" << n_save << " saved-entries=" << n_saved << " loads=" << n_load
+            << " failed-loads=" << n_loadfail << " proxy-calls=" << n_proxy << " evaluations=" << n_eval
+            << " bad=" << n_bad << (first_bad.empty() ? "" : " first=" + first_bad) << "\n";
   return n_bad ? 3 : 0;
 }
